@@ -180,6 +180,11 @@ class ImageViewerState(MatplotlibDataViewerState):
                     # so we do this here manually.
                     self._on_xatt_world_change()
                     self._on_yatt_world_change()
+                    if self.reference_data is None:
+                        # No dataset is left, so don't keep referring to the
+                        # pixel axes of a dataset that has been removed.
+                        self.x_att = None
+                        self.y_att = None
 
     def _layers_changed(self, *args):
 
